@@ -150,4 +150,12 @@ FuncSem(a) ==
     [] a.c = "nan"  -> NaN
     [] OTHER -> Irr(1, D1)
 
+
+\* ---- elementary function of two arguments (atan2) ------------------------------------
+\* every argument must be dimensionless on its own; only finite non-zero arguments are decided
+Func2Defined(a, b) == /\ a.c \in {"fin", "err"} /\ b.c \in {"fin", "err"} /\ ~HasAngle(a) /\ ~HasAngle(b)
+Func2Sem(a, b) ==
+  IF a.c = "err" \/ b.c = "err" THEN Err
+  ELSE IF ~Dimless(a.d) \/ ~Dimless(b.d) THEN Err
+  ELSE Irr(0, D1)
 =============================================================================
